@@ -207,7 +207,10 @@ class RandomGen:
         if r < 0.8:
             return b.expr(kind='name', name=self.r.choice(scope))
         if r < 0.9 and self.ifexp:
-            return b.expr(kind='ifexp', args=[self.test(scope, 1), self.value(scope, 1), self.value(scope, 1)])
+            inner = (lambda: b.expr(kind='ifexp', args=[b.D(self.reads(scope, 0, 1)), b.T(self.reads(scope, 0, 1)), b.T(self.reads(scope, 0, 1))]))
+            return b.expr(kind='ifexp', args=[self.test(scope, 1),
+                                             inner() if self.r.random() < 0.25 else self.value(scope, 1),
+                                             inner() if self.r.random() < 0.25 else self.value(scope, 1)])
         return b.expr(kind=self.r.choice(['and', 'or']), args=[self.value(scope, 1), self.value(scope, 1)])
 
     def directive(self, fn):
